@@ -33,7 +33,11 @@ CBMC_BASE = [
 ]
 CBMC_MEM = ["--pointer-check", "--bounds-check"]
 # variant "str": std::basic_string<char> is instantiated from the headers (no extern template), so that std::string has IR
-VARIANT_FLAGS = {"str": ["-D_GLIBCXX_EXTERN_TEMPLATE=0", "-DVP_STRVARIANT=1"]}
+# "o0": no optimisation at all. clang -O1 resolves a partially initialised local (LLVM undef) to a convenient constant, which
+# hides exactly the uninitialised reads C20 is about; at -O0 the local stays an uninitialised stack object.
+VARIANT_FLAGS = {"str": ["-D_GLIBCXX_EXTERN_TEMPLATE=0", "-DVP_STRVARIANT=1"], "o0": ["-O0", "-Xclang", "-disable-O0-optnone"]}
+# passes run on the linked module of a variant: promotion of plain scalar locals and inlining only - nothing that folds undef
+VARIANT_OPT = {"o0": os.environ.get("VP_O0_PASSES", "mem2reg")}
 
 TOTAL_MEM_GB = int(os.environ.get("VP_TOTAL_MEM_GB", "52"))
 WITNESS_REPLAYS = int(os.environ.get("VP_WITNESS_REPLAYS", "2"))
@@ -186,6 +190,10 @@ class Ctx:
             r = sh(["llvm-link-14", "-o", mod, lib, "--override=" + hb])
             if r.returncode != 0:
                 raise RuntimeError("llvm-link failed:\n" + r.stderr[-3000:])
+            if job.variant in VARIANT_OPT:
+                r = sh(["opt-14", "-passes=" + VARIANT_OPT[job.variant], mod, "-o", mod])
+                if r.returncode != 0:
+                    raise RuntimeError("opt failed:\n" + r.stderr[-3000:])
             gen = os.path.join(d, "gen.c")
             funcs = os.path.join(d, "funcs.json")
             cmd = [LL2C, mod, "--funcs-out", funcs] + job.ll2c_opts
@@ -378,19 +386,23 @@ def extract_input(trace_text, in_max, pname=None):
 
 
 # -------------------------------------------------------------------- native replay
-def native_lib(ctx, variant):
+def native_lib(ctx, variant, mode="asan"):
+    """mode 'asan': ASan+UBSan build; mode 'plain': no instrumentation (run under valgrind memcheck for definedness)"""
+    key = variant if mode == "asan" else variant + "+" + mode
     with ctx.lock:
-        lk = ctx.unit_locks.setdefault(("native", variant), threading.Lock())
+        lk = ctx.unit_locks.setdefault(("native", key), threading.Lock())
     with lk:
-        if variant in ctx.native_lib:
-            return ctx.native_lib[variant]
-        d = os.path.join(ctx.build, "native-" + variant)
+        if key in ctx.native_lib:
+            return ctx.native_lib[key]
+        d = os.path.join(ctx.build, "native-" + key)
         os.makedirs(d, exist_ok=True)
         srcs = sorted(f for f in os.listdir(os.path.join(REPO, "src")) if f.endswith(".cpp"))
         inc = ["-I" + os.path.join(REPO, "include"), "-I" + RT]
         if variant == "mapmodel":
             inc = ["-I" + os.path.join(RT, "stubinc")] + inc
         flags = ["-std=c++17", "-O0", "-g", "-fsanitize=address,undefined", "-fno-sanitize=vptr,alignment,nonnull-attribute", "-fno-omit-frame-pointer", "-D" + GUARD, "-DVP_NATIVE", "-w"]
+        if mode == "plain":
+            flags = ["-std=c++17", "-O0", "-g", "-fno-omit-frame-pointer", "-D" + GUARD, "-DVP_NATIVE", "-w"]
 
         def comp(src):
             out = os.path.join(d, os.path.basename(src).replace(".cpp", ".o"))
@@ -401,14 +413,14 @@ def native_lib(ctx, variant):
 
         with cf.ThreadPoolExecutor(NCPU) as ex:
             objs = list(ex.map(comp, [os.path.join(REPO, "src", s) for s in srcs] + [os.path.join(RT, "replay_rt.cpp")]))
-        ctx.native_lib[variant] = (objs, flags, inc)
-        return ctx.native_lib[variant]
+        ctx.native_lib[key] = (objs, flags, inc)
+        return ctx.native_lib[key]
 
 
-def native_replay(ctx, job, input_bytes, tag):
+def native_replay(ctx, job, input_bytes, tag, mode="asan"):
     """Compile the same harness natively against /repo's sources and run it on the recorded input."""
-    objs, flags, inc = native_lib(ctx, job.variant)
-    d = os.path.join(ctx.build, "replay-" + hashlib.sha1((job.name() + tag).encode()).hexdigest()[:10])
+    objs, flags, inc = native_lib(ctx, job.variant, mode)
+    d = os.path.join(ctx.build, "replay-" + hashlib.sha1((job.name() + tag + mode).encode()).hexdigest()[:10])
     os.makedirs(d, exist_ok=True)
     main = os.path.join(d, "main.cpp")
     with open(main, "w") as f:
@@ -424,8 +436,9 @@ def native_replay(ctx, job, input_bytes, tag):
     inp = os.path.join(d, "input.bin")
     open(inp, "wb").write(input_bytes)
     env = dict(os.environ, VP_REPLAY_INPUT=inp, ASAN_OPTIONS="detect_leaks=0:abort_on_error=0:allocator_may_return_null=1:max_allocation_size_mb=4096", UBSAN_OPTIONS="print_stacktrace=0")
+    run = [exe] if mode == "asan" else ["valgrind", "-q", "--error-exitcode=97", "--undef-value-errors=yes", "--track-origins=no", "--error-limit=no", exe]
     try:
-        p = subprocess.run([exe], stdout=subprocess.PIPE, stderr=subprocess.STDOUT, text=True, env=env, timeout=60, errors="replace")
+        p = subprocess.run(run, stdout=subprocess.PIPE, stderr=subprocess.STDOUT, text=True, env=env, timeout=60 if mode == "asan" else 300, errors="replace")
         out, rc, to = p.stdout, p.returncode, False
     except subprocess.TimeoutExpired as e:
         out, rc, to = (e.stdout or b"").decode(errors="replace") if isinstance(e.stdout, bytes) else (e.stdout or ""), -1, True
@@ -680,7 +693,8 @@ def handle_failure(ctx, prop, job, u, res, violations, inconclusive, rec):
     if prop == "C19" and desc.startswith("C19:"):
         # a reachable write into a static-storage object: confirmed by a multi-threaded run under ThreadSanitizer
         nat = c19_native(ctx)
-        race = "ThreadSanitizer: data race" in nat["out"] or "digests differ" in nat["out"]
+        # a crash of the multi-threaded run (corrupted shared structure) counts like a reported race; build failures and timeouts do not
+        race = "ThreadSanitizer: data race" in nat["out"] or "digests differ" in nat["out"] or (nat.get("built") and nat["rc"] not in (0, -1, -2))
         rdir = os.path.join(os.environ.get("VP_REPLAYS", os.path.join(VERIF, "replays")), prop)
         os.makedirs(rdir, exist_ok=True)
         where = "%s:%s %s" % (sl.get("file", "?"), sl.get("line", "?"), sl.get("function", "?"))
@@ -701,6 +715,13 @@ def handle_failure(ctx, prop, job, u, res, violations, inconclusive, rec):
     inp = extract_input(tr["out"], job.in_max, pname)
     rep = native_replay(ctx, job, inp, pname or desc)
     ok, why = confirms(rep, desc)
+    if not ok and desc.startswith("C20:") and rep.get("built"):
+        # the solver says an output byte depends on uninitialised memory; in one native process an uninitialised stack slot
+        # usually holds the same stale value in both runs, so definedness is confirmed with valgrind memcheck instead
+        rep2 = native_replay(ctx, job, inp, pname or desc, mode="plain")
+        if rep2.get("built") and re.search(r"uninitialised (value|byte)", rep2.get("out", "")):
+            ok, why = True, "valgrind memcheck: " + re.search(r"[^\n]*uninitialised (?:value|byte)[^\n]*", rep2["out"]).group(0).strip()[:160]
+            rep = rep2
     rdir = os.path.join(os.environ.get("VP_REPLAYS", os.path.join(VERIF, "replays")), prop)
     os.makedirs(rdir, exist_ok=True)
     tag = hashlib.sha1((job.name() + (pname or "") + desc).encode()).hexdigest()[:10]
@@ -730,6 +751,10 @@ def replay_file(path):
     job = Job(r["harness"], r["entry"], defs=r["defs"], cdefs=r.get("cdefs"), variant=r.get("variant", "real"), in_max=r.get("in_max", 256))
     rep = native_replay(ctx, job, bytes.fromhex(r["input_hex"]), "replay")
     ok, why = confirms(rep, r["description"])
+    if not ok and r["description"].startswith("C20:") and rep.get("built"):
+        rep2 = native_replay(ctx, job, bytes.fromhex(r["input_hex"]), "replay", mode="plain")
+        if rep2.get("built") and re.search(r"uninitialised (value|byte)", rep2.get("out", "")):
+            ok, why, rep = True, "valgrind memcheck reports a use of uninitialised memory", rep2
     print(rep.get("out") or rep.get("log"))
     print("REPRODUCED" if ok else "NOT REPRODUCED", "-", why)
     ctx.cleanup()
